@@ -28,6 +28,7 @@ func init() {
 type c14Case struct {
 	Pre   []wOp     `json:"pre_history"`
 	Op    wOp       `json:"deployment"`
+	Fail  *faultSpec `json:"failing_step,omitempty"` // a step of the same run that fails (one instance of the deployment fails and is rolled back)
 	Crash faultSpec `json:"crash_before_step"`
 }
 
@@ -43,7 +44,7 @@ func c14Explore(t *testing.T, c *vcore.Ctx) {
 		c.HarnessError("initial cluster: %v", err)
 		return
 	}
-	c.SetRule("deployments {1 node x 1, 1 node x 2, 2 nodes x 1+1 (AUTO over the pod), EACH x 1, AUTO x 3, FILL x 2, GLOBAL x 2; thorough also 3 bound instances on the NUMA node, EACH memory-only, two half-core instances, DRAINED x 3} x {memory-only, bound 1.0} from pre-states {empty, one workload present; thorough also a bound workload on each node}; for every recorded step k: crash before step k, then recovery in a fresh instance on the same store/engines/WAL file; " +
+	c.SetRule("deployments {1 node x 1, 1 node x 2, 2 nodes x 1+1 (AUTO over the pod), EACH x 1, AUTO x 3, FILL x 2, GLOBAL x 2; thorough also 3 bound instances on the NUMA node, EACH memory-only, two half-core instances, DRAINED x 3} x {memory-only, bound 1.0} from pre-states {empty, one workload present; thorough also a bound workload on each node}; plus two of them with one instance failing after its container was created (engine start refused for the first / second instance, its record refused); for every recorded step k: crash before step k, then recovery in a fresh instance on the same store/engines/WAL file; " +
 		"non-trivial = distinct (pre-state, deployment, crash point) whose crash was delivered")
 	c.Assume("a crash stops all external effects atomically between two intercepted steps (no torn individual write; bbolt's own atomicity is trusted)")
 	c.Assume("recovery starts after the dead instance's lock sessions and leases have expired (all leases are revoked before the new instance starts)")
@@ -107,14 +108,51 @@ func c14Explore(t *testing.T, c *vcore.Ctx) {
 			}
 		}
 	}
+	// deployments in which one instance fails after its container was created (the engine refuses to start it,
+	// or its record cannot be written) and is rolled back: every crash point of THAT run
+	snap, view := prep(nil)
+	for _, op := range []wOp{
+		{Kind: "create", Strategy: "AUTO", Count: 2, Req: "bind1", Include: []string{"n1"}},
+		{Kind: "create", Strategy: "AUTO", Count: 2, Req: "mem"},
+	} {
+		b.Restore(snap)
+		_, tr0, _, _ := worldStep(t, b, op, view, nil, 11)
+		var fails []faultSpec
+		for _, f := range stepList(tr0.Steps) {
+			if strings.HasPrefix(f.Label, "engine.start(") || strings.HasPrefix(f.Label, "etcd.txn(/deploy/") {
+				fails = append(fails, f)
+			}
+		}
+		for _, fail := range fails {
+			fail := fail
+			b.Restore(snap)
+			_, tr, _, _ := worldStep(t, b, op, view, &fail, 11)
+			if !tr.Delivered {
+				continue
+			}
+			for _, f := range stepList(tr.Steps) {
+				idx++
+				if !c.Mine(idx) {
+					continue
+				}
+				if c.Expired() {
+					c.CapHit("budget reached")
+					return
+				}
+				f.Crash = true
+				c14One(t, c, b, snap, view, &c14Case{Op: op, Fail: &fail, Crash: f})
+			}
+		}
+	}
 }
 
 func c14One(t *testing.T, c *vcore.Ctx, b *world.Backend, snap *world.Snap, pre *world.View, cc *c14Case) {
 	b.Restore(snap)
 	var res wResult
 	var walAtCrash []world.WALEvent
+	var everPut []string
 	var atCrash *world.View
-	rec := &recorder{counts: map[string]int{}, fault: &cc.Crash}
+	rec := &recorder{counts: map[string]int{}, fault: &cc.Crash, also: cc.Fail}
 	problem := runBubble(t, func() {
 		resetRand(11)
 		inst, err := b.NewInstance(world.InstanceOpts{})
@@ -131,6 +169,9 @@ func c14One(t *testing.T, c *vcore.Ctx, b *world.Backend, snap *world.Snap, pre 
 			inst.Crash() // crash point after the last step: nothing left to lose
 		}
 		synctest.Wait()
+		if inst.WALKV != nil {
+			everPut = inst.WALKV.Puts()
+		}
 		inst.Close()
 		// the dead process is gone: its sessions expire
 		b.Etcd.RevokeAll()
@@ -173,7 +214,16 @@ func c14One(t *testing.T, c *vcore.Ctx, b *world.Backend, snap *world.Snap, pre 
 	if len(post.Processing) > 0 {
 		viol("processing-marker-remains", "after recovery: %v", post.Processing)
 	}
+	// "logged" = the container's creation was EVER written to the log by the crashed instance (not: is still in
+	// the file at the crash - an entry dropped too early must not turn its container into an excused orphan)
 	logged := map[string]bool{}
+	for _, val := range everPut {
+		for id := range crashC {
+			if strings.Contains(val, id) {
+				logged[id] = true
+			}
+		}
+	}
 	for _, e := range walAtCrash {
 		if e.Type == "create-workload" {
 			for id := range crashC {
